@@ -17,6 +17,8 @@ void run_h2(const std::string& op, const std::string& fam, const MeshIn& in, Cur
   if(fam == "B2") { Ops<ShapeT, FamB2>::run(op, cx, c, o); return; }
   if(fam == "HE") { Ops<ShapeT, FamHE>::run(op, cx, c, o); return; }
   if(fam == "BF") { Ops<ShapeT, FamBF>::run(op, cx, c, o); return; }
+  if(fam == "CR") { Ops<ShapeT, FamCR>::run(op, cx, c, o); return; }
+  if(fam == "D1") { Ops<ShapeT, FamD1>::run(op, cx, c, o); return; }
   o << "UNSUPPORTED";
 }
 }
